@@ -8,7 +8,8 @@ E-enum over a real SoftwareSwitch behind the byte-level connection (mc.env.Switc
     carrying the frame with in_port 1, (c) as a packet-out with in_port NONE; plus boundary arguments and a fixed set
     of length-5/6 lists.  The action list travels as spec-encoded bytes (mc/refs/ofwire.py).
  B. port rules: ingress-port config x egress-port config (all 2^6 combinations of PORT_DOWN, NO_RECV, NO_RECV_STP,
-    NO_FLOOD, NO_FWD, NO_PACKET_IN, set through real port-mod messages) x output kind x {ordinary, 802.1D} frame.
+    NO_FLOOD, NO_FWD, NO_PACKET_IN, set through real port-mod messages) x output kind x frames to {unicast, broadcast, 01:80:c2:00:00:00 (802.1D; UDP and
+    LLC BPDU), :01, :0e, :0f, :10}.
  C. port-mod: every transition config a -> config b through a masked port-mod, read back from a features reply.
 
 Oracle: mc/refs/refpkt.py, a byte-level rewriter/interpreter written from the specification text.  Emissions are
@@ -601,8 +602,30 @@ def from_names (ns):
   return sum(rev[n] for n in ns)
 
 
+# destination addresses of the frames sent through every port configuration: the 802.1D bridge group address is the
+# ONLY address that OFPPC_NO_RECV lets through and that OFPPC_NO_RECV_STP refuses; its neighbours in the reserved block
+# 01:80:c2:00:00:01..0f (pause, LLDP, ...), the first address past the block, broadcast and unicast are ordinary traffic
+PORT_DSTS = (
+  ("unicast", None), ("broadcast", b"\xff" * 6), ("stp-group", R.STP_MAC),
+  ("reserved-group-01", bytes.fromhex("0180c2000001")), ("reserved-group-0e", bytes.fromhex("0180c200000e")),
+  ("reserved-group-0f", bytes.fromhex("0180c200000f")), ("group-10", bytes.fromhex("0180c2000010")),
+)
+
+def port_frames (frames):
+  """(name, destination class, frame): the IPv4/UDP frame under every destination of PORT_DSTS, and the LLC BPDU."""
+  out = []
+  for cls, dst in PORT_DSTS:
+    f = frames["udp"] if dst is None else dst + frames["udp"][6:]
+    out.append(("udp>" + cls, cls, f))
+    if cls == "unicast": out.append(("bpdu", "stp-group", frames["bpdu"]))
+  return out
+
+def dst_class (cls):
+  return "reserved-group" if cls.startswith("reserved-group") else cls
+
+
 def run_port_case (frames, icfg, ecfg, kind, mode):
-  """Ports IN and EG configured through port-mod; then an ordinary and an 802.1D frame, one after the other."""
+  """Ports IN and EG configured through port-mod; then frames to every destination class, one after the other."""
   sw = Sw(); obs = sw.obs
   bad = []
   def v (k, what): bad.append(("%s:%s" % (PID, k), "ingress %s, egress %s, %s as %s: %s" % (flags(icfg), flags(ecfg), kind, mode, what)))
@@ -627,8 +650,7 @@ def run_port_case (frames, icfg, ecfg, kind, mode):
     sw.feed(W.flow_mod(sw.nxid(), W.match_fields(in_port=IN), W.OFPFC_ADD, encode(labels)))
   rx_alts = [(0, 0)]
   summary = []
-  for fname in ("udp", "bpdu"):
-    frame = frames[fname]
+  for fname, cls, frame in port_frames(frames):
     o0, p0 = len(obs.out), len(obs.pins)
     if mode == "flow": sw.rx(frame, IN)
     else: sw.feed(W.packet_out(sw.nxid(), encode(labels), frame, in_port=IN))
@@ -663,18 +685,24 @@ def run_port_case (frames, icfg, ecfg, kind, mode):
       nxt = set((n + 1, b + len(frame)) for n, b in rx_alts)
       if not must_count: nxt |= set(rx_alts)
       rx_alts = sorted(nxt)
-    stp = "stp" if fname == "bpdu" else "ordinary"
+    is_stp = frame[:6] == R.STP_MAC
+    stp = "%s (dst %s)" % ("stp" if is_stp else "ordinary", frame[:6].hex())
     if which is None and not accepted:
-      v("portrule:accepted-from-receive-disabled-port:%s:%s-frame" % ("no-recv-stp" if fname == "bpdu" else "no-recv", stp),
-        "%s frame was processed although the ingress port refuses it: emitted on %r, %d packet-in(s)"
-        % (stp, [p for p, f in step.out], len(step.pins)))
+      v("portrule:accepted-from-receive-disabled-port:%s:%s-dst" % ("no-recv-stp" if is_stp else "no-recv", dst_class(cls)),
+        "%s frame %s was processed although the ingress port refuses it: emitted on %r, %d packet-in(s)"
+        % (stp, fname, [p for p, f in step.out], len(step.pins)))
+      break
+    if which is None and accepted and mode == "flow" and not step.out and not step.pins and not icfg & R.PC_PORT_DOWN:
+      v("portrule:accepted-frame-dropped:%s-dst" % dst_class(cls),
+        "%s frame %s must be accepted by the ingress port but nothing happened (expected emissions on %r, %d packet-in(s))"
+        % (stp, fname, sorted(p for p, l in variants[0].per_port.items() if l), len(variants[0].pins)))
       break
     if which is None:
       for r in results[0]:
         if r["clause"] == "ports":
           pc = cfgs[r["port"]]
           if r["dir"] == "extra":
-            if not accepted: why = "not-accepted:%s-frame" % stp
+            if not accepted: why = "not-accepted"
             elif r["port"] == IN and kind != "inport": why = "ingress-port"
             elif pc & R.PC_PORT_DOWN: why = "port-down"
             elif pc & R.PC_NO_FWD: why = "no-fwd"
@@ -682,7 +710,6 @@ def run_port_case (frames, icfg, ecfg, kind, mode):
             else: why = "unexplained"
           else:
             why = {IN: "ingress-port", EG: "egress-port"}.get(r["port"], "other-port")
-            if accepted and mode == "flow" and not step.out and not step.pins: why = "accepted-frame-dropped:%s-frame" % stp
           v("portrule:%s:%s:%s" % (r["dir"], kind, why), "%s frame: %s (port %d config %s)" % (stp, r["what"], r["port"], flags(pc)))
         elif r["clause"] == "bytes":
           v("portrule:bytes:%s" % r["layers"], "%s frame: %s" % (stp, r["what"]))
@@ -737,7 +764,7 @@ def _work_ports (item):
           rep.violation(k, what, dict(kind="ports", ingress=names(icfg), egress=names(ecfg), out=kind, mode=mode))
         if not bad and rep.evaluations % 700 == 3:
           rep.sample(dict(ingress_config=flags(icfg), egress_config=flags(ecfg), output=kind, delivered_as=mode,
-                          emitted_ports_ordinary_then_stp=[[p for p, d in s[0]] for s in summary]))
+                          frames=[n for n, c, f in port_frames(frames)], emitted_ports_per_frame=[[p for p, d in s[0]] for s in summary]))
   rep.state_count = rep.evaluations
   return rep
 
@@ -856,7 +883,8 @@ def run (cfg):
               "output:CONTROLLER / a table miss / a packet-out's output:CONTROLLER / a flow [set_vlan_vid, output:CONTROLLER, "
               "set_dl_dst], the list then arrives in a packet-out or flow-mod naming the buffer id): %s. "
               "B: ingress config x egress config over all 2^6 combinations of PORT_DOWN/NO_RECV/NO_RECV_STP/NO_FLOOD/NO_FWD/NO_PACKET_IN "
-              "(%s) set by port-mod x output kind %s x delivery x (ordinary frame then 802.1D frame). "
+              "(%s) set by port-mod x output kind %s x delivery x (in sequence: frames to unicast, [LLC BPDU], broadcast, "
+              "01:80:c2:00:00:00, :01, :0e, :0f, :10 - only :00 is 802.1D). "
               "C: port-mod transitions a->b (%s) with full and changed-bits masks, read back via features reply. "
               "One fresh switch per case; cases are distinct as (frame, delivery, action list) / (configs, kind, delivery); "
               "distinct outcomes = distinct (case class, emitted (port, frame) sequence, packet-ins, verdict)"
@@ -919,7 +947,8 @@ def replay (cfg, data):
     bad, summary, calls = run_port_case(frames, icfg, ecfg, data["out"], data["mode"])
     lines = ["ingress port %d config %s, egress port %d config %s, output kind %s, delivered as %s"
              % (IN, flags(icfg), EG, flags(ecfg), data["out"], data["mode"]),
-             "observed per frame (ordinary, 802.1D): (emitted (port, digest), packet-in (reason, in_port)): %r" % (summary,)]
+             "frames sent in sequence: %r" % [n for n, c, f in port_frames(frames)],
+             "observed per frame: (emitted (port, digest), packet-in (reason, in_port)): %r" % (summary,)]
   elif k == "portmod":
     a, b = from_names(data["a"]), from_names(data["b"])
     bad, summary, calls = run_portmod_case(a, b, data["full"])
